@@ -6,8 +6,8 @@ Import ListNotations.
 Open Scope string_scope.
 Open Scope list_scope.
 
-(** building the message never replaces the violation: for conditions without comprehensions and
-    dict displays the re-evaluator returns whenever Python's own evaluation did *)
+(** building the message never replaces the violation: for conditions without comprehensions
+    the re-evaluator returns whenever Python's own evaluation did *)
 Theorem C07_no_replacement_partial (P : prims) :
   (forall f a k r, p_call P f a k = Ok r -> p_callable P f = true) ->
   forall e m v m' l, simple e = true -> ev P 0 e (m, []) = Ok (v, (m', l)) -> exists r, rc P 0 e (up m, []) = Ok r.
